@@ -16,7 +16,7 @@ LEVEL = "exploration"
 RULE = ("E1: left documents = every document <= 3 nodes (no booleans) plus "
         "the C05 family, x merge paths in four classes - (1) the coordinate "
         "path of every existing node, (2) paths matching several nodes "
-        "(/*, /a/*, /**/a, a search), (1b) left documents whose target is an anchored list/hash or an alias of one (all 180 policies), (3) a missing but creatable key/index "
+        "(/*, /a/*, /**/a, a search, Array slices), (1b) left documents whose target is an anchored list/hash or an alias of one (all 180 policies), (3) a missing but creatable key/index "
         "tail under every container (and, for an empty left document, the "
         "whole path), (4) an unmatchable search - x 8 "
         "right-hand documents covering every root kind (hash, nested hash, "
@@ -73,6 +73,10 @@ def seg_paths(doc):
     out.append(("multi", [("traverse",), ("key", "a")]))
     out.append(("multi", [("search", False, "EQUALS", ".", "a")]))
     out.append(("multi", [("all",), ("key", "a")]))
+    # Array slices: every element of the slice is a target
+    out.append(("multi", [("key", "a"), ("slice", 0, 2)]))
+    out.append(("multi", [("slice", 0, 2)]))
+    out.append(("multi", [("key", "b"), ("slice", 1, 1)]))
     for path, node, parent, ref in pos:
         if any(st[0] == "m" for st in path):
             continue
